@@ -10,5 +10,6 @@ CONSTANTS
  FixDoubleDec = TRUE
  FixUnbounded = TRUE
  FixWouldBlock = FALSE
+ CoalesceWake = FALSE
 PROPERTIES Delivery
 CHECK_DEADLOCK FALSE
